@@ -42,6 +42,9 @@ def fit : Nat → List Byte → List Byte × List Byte
       (item c ++ r.1, r.2)
     else ([], c :: cs)
 
+/-- which errno values of send() leave the connection usable: EWOULDBLOCK and EINTR (platform values from `Gen`) -/
+def specKeeps (e : Nat) : Bool := e == NV.Gen.C14.eWouldBlock || e == NV.Gen.C14.eIntr
+
 structure J where
   /-- bytes owed to the client, oldest first (at most `N`) -/
   q : List Byte := []
@@ -89,7 +92,7 @@ def jstep (j : J) : Ev → J
       | .wouldBlock => refused j
       | .intr => refused j
       | .pipe => { j with dead := true }
-      | .err _ => { j with dead := true }
+      | .err e => if specKeeps e then refused j else { j with dead := true }
   | .close => { j with dead := true }
   | .st want _ _ l _ =>
     if j.dead then j
